@@ -80,7 +80,11 @@ class Gen:
         if will_fail:
             style = rng.random()
             exc = rng.choice(['E1', 'E1', 'E2', 'EOther', 'E1Sub', 'EFalsy', 'ERt', 'EKey'])
-            if style < 0.45:
+            if rng.random() < p.get('p_fatal', 0.0):
+                # a BaseException (incl. a CancelledError the body raises itself): propagated by run()
+                node['plan']['fail'] = ['ALWAYS', rng.choice(['Fatal', 'ECancel'])]
+                node.pop('retry', None)
+            elif style < 0.45:
                 node['plan']['fail'] = ['ALWAYS', exc]
             else:
                 k = rng.randint(1, 3)
@@ -590,8 +594,26 @@ def gen_program(rng, prof=None):
     prog = g.build()
     if (prof or DEFAULT).get('p_generic', 0.0):
         add_generics(prog, rng, (prof or DEFAULT)['p_generic'])
+    defuse_fatal(prog)
     prog['tags'] = sorted(analyze(prog))
     return prog
+
+
+def defuse_fatal(prog):
+    """A BaseException raised in the sub-pipeline of a one-of candidate or of a switch case races with the
+    contained failures of that sub-pipeline (whichever is seen first decides between "next candidate" and "run
+    raises"): both outcomes are legitimate, so the generator keeps BaseException outcomes out of lazily
+    evaluated sub-pipelines."""
+    lazy = set()
+    for node in prog['nodes'].values():
+        for _, m in node.get('params', []):
+            roots = m[1] if m[0] == 'oneof' else [c for _, c in m[3]] if m[0] == 'sw' else []
+            for r in roots:
+                lazy |= ancestors(prog, r) | {r}
+    for nid in lazy:
+        f = (prog['nodes'][nid].get('plan') or {}).get('fail')
+        if f and any(x in ('Fatal', 'ECancel') for x in f):
+            prog['nodes'][nid]['plan']['fail'] = ['E1' if x in ('Fatal', 'ECancel') else x for x in f]
 
 
 # ----------------------------------------------------------------------------------------------
